@@ -81,9 +81,11 @@ fn menu(k: usize, thorough: bool) -> Vec<Order> {
     m
 }
 
-fn run_under(s: &Sched, f: &(dyn Fn() -> Vec<u8> + Send + Sync)) -> (Vec<u8>, Vec<usize>) {
+/// Runs a scenario body under a schedule. A panic of the body (the sequential build returned, so the multi-threaded
+/// one must as well) is handed back with the regions executed so far.
+fn run_under(s: &Sched, f: &(dyn Fn() -> Vec<u8> + Send + Sync)) -> (Result<Vec<u8>, kit::pan::PanicRec>, Vec<usize>) {
     verif::set(s.controller());
-    let d = f();
+    let d = kit::pan::catch(f);
     let c = verif::take();
     (d, c.regions)
 }
@@ -172,7 +174,16 @@ fn main() {
         let dev_pools: Vec<usize> = if !thorough { vec![3] } else if costly { vec![3, 64] } else { vec![1, 2, 3, 8, 64] };
         for &pool in dev_pools.iter() {
             let base = Sched { pool, default_order: Order::Identity, deviations: BTreeMap::new(), find_any_choice: 0 };
-            let (_, regions) = run_under(&base, &*sc.run);
+            let (res, regions) = run_under(&base, &*sc.run);
+            if let Err(p) = res {
+                run.add_violation(
+                    &format!("schedules/{}", sc.name),
+                    pool as u64,
+                    &format!("{}: the multi-threaded build panics where the single-threaded one returns ({})", scenario_class(&sc.name), p.class()),
+                    json!({"scenario": sc.name, "schedule": base.json(), "regions_before_the_panic": regions.len(), "panic": p.msg}),
+                );
+                continue;
+            }
             for (r, k) in regions.iter().enumerate() {
                 let m = menu(*k, thorough && !heavy);
                 // heavy scenarios: a thinner menu per region
@@ -218,6 +229,16 @@ fn main() {
             move |idx, out| {
                 let s = &s1[idx as usize];
                 let (d, regions) = run_under(s, &*sc1.run);
+                let d = match d {
+                    Ok(d) => d,
+                    Err(p) => {
+                        out.violation(
+                            format!("{}: the multi-threaded build panics where the single-threaded one returns ({})", scenario_class(&name), p.class()),
+                            json!({"scenario": name, "schedule": s.json(), "regions_before_the_panic": regions.len(), "panic": p.msg}),
+                        );
+                        return;
+                    },
+                };
                 out.states(1);
                 out.transitions(regions.iter().map(|k| *k as u64).sum());
                 out.traces(1);
